@@ -1,7 +1,102 @@
 import Dhcp.Driver.Hex
-/- Line-protocol operations of the `Server` family (stub until the model lands). -/
-namespace Dhcp.Driver
+import Dhcp.Driver.V4
+import Dhcp.Server
+/-
+  Line-protocol operations of the `Server` family (property C14).
 
-def stepServer (_op : String) (_args : List String) : Option String := none
+    serve4 [w=<k>] <event> <event> …
+    serve6 [w=<k>] <event> <event> …
+
+  event (fields separated by `:`):
+    e                          ReadFrom returns an error
+    c                          the server is closed while ReadFrom waits (⇒ ReadFrom returns an error)
+    d:<hex>:<peer>             serve4: a datagram (`-` = empty read, n = 0) from <peer>
+    a:<hex>:<canon>:<peer>     serve6: a datagram the real dhcpv6.FromBytes ACCEPTS; <canon> = hex of
+                               the re-encoding of its decoding (computed by the harness when the line
+                               was generated, from the first 4096 bytes)
+    r:<hex>:<peer>             serve6: a datagram the real dhcpv6.FromBytes REJECTS
+  peer:
+    udp:<iphex|nil>:<port>:<zonehex>   a *net.UDPAddr
+    udpnil                             an interface holding a nil *net.UDPAddr
+    other:<id>                         some other net.Addr implementation
+    nil                                the nil interface
+
+  Output: `ok exit=<returned|blocked|panic> n=<k>` followed by ` | <idx> <peer> <message>` per
+  handler invocation in loop order; <message> is the canonical packet of the `v4dec` op (serve4)
+  or <canon> (serve6).
+
+  TEMPORARY WEAKNESS (serve6): the Lean side has no DHCPv6 decoder model yet, so `dec6` is the
+  finite table `first 4096 bytes ↦ canon` carried by the op line itself.  The model therefore
+  decides which datagram is dispatched, in which order, with which peer and how the loop ends —
+  but the CONTENT of a DHCPv6 message is whatever the harness computed with the real decoder; it
+  is checked independently only by the implementation oracle `c14`.
+-/
+namespace Dhcp.Driver
+open Dhcp Dhcp.Server
+
+def showPeer : Peer → String
+  | .udp ip port zone => s!"udp:{hexOpt ip}:{port}:{hex zone}"
+  | .udpNilPtr => "udpnil"
+  | .other id => s!"other:{id}"
+  | .nilAddr => "nil"
+
+def parsePeer : List String → Option Peer
+  | ["udp", ip, port, zone] => do
+    let ip ← unhexOpt ip
+    let port ← port.toNat?
+    let zone ← unhex zone
+    pure (.udp ip port zone)
+  | ["udpnil"] => some .udpNilPtr
+  | ["other", id] => do
+    let id ← id.toNat?
+    pure (.other id)
+  | ["nil"] => some .nilAddr
+  | _ => none
+
+/-- one event: the read result and, for serve6, the decoder-table entry it carries -/
+def parseEvent (tok : String) : Option (ReadResult × Option (Bytes × Bytes)) :=
+  match tok.splitOn ":" with
+  | ["e"] => some (.readError, none)
+  | ["c"] => some (.readError, none)
+  | "d" :: h :: peer => do
+    let b ← unhex h
+    let p ← parsePeer peer
+    pure (.datagram b p, none)
+  | "a" :: h :: canon :: peer => do
+    let b ← unhex h
+    let c ← unhex canon
+    let p ← parsePeer peer
+    pure (.datagram b p, some (b.take readBufLen, c))
+  | "r" :: h :: peer => do
+    let b ← unhex h
+    let p ← parsePeer peer
+    pure (.datagram b p, none)
+  | _ => none
+
+def showExit : Exit → String
+  | .returned => "returned"
+  | .blocked => "blocked"
+  | .panicked => "panic"
+
+def showOutcome {α} (sh : α → String) (o : Outcome α) : String :=
+  s!"ok exit={showExit o.exit} n={o.invocations.length}" ++
+    String.join (o.invocations.map (fun v => s!" | {v.idx} {showPeer v.peer} {sh v.msg}"))
+
+/-- the DHCPv6 decoder stand-in: a finite table from the op line -/
+def tableDec (tbl : List (Bytes × Bytes)) (b : Bytes) : Option Bytes :=
+  (tbl.find? (fun e => e.1 == b)).map (·.2)
+
+def stepServer (op : String) (args0 : List String) : Option String :=
+  -- `w=<k>` (how long the harness's handlers block) is not part of the model's input
+  let args := args0.filter (fun a => !a.startsWith "w=")
+  match op with
+  | "serve4" => do
+    let evs ← args.mapM parseEvent
+    pure (showOutcome showPkt4 (serve4 (evs.map (·.1))))
+  | "serve6" => do
+    let evs ← args.mapM parseEvent
+    let tbl := evs.filterMap (·.2)
+    pure (showOutcome hex (serve6 (tableDec tbl) (evs.map (·.1))))
+  | _ => none
 
 end Dhcp.Driver
